@@ -20,6 +20,8 @@ pub(crate) enum PhysLayerImpl {
     Tls(Box<tokio_rustls::TlsStream<tokio::net::TcpStream>>),
     #[cfg(test)]
     Mock(sfio_tokio_mock_io::Mock),
+    #[cfg(kani)]
+    Verif(VerifIo),
 }
 
 impl std::fmt::Debug for PhysLayer {
@@ -32,6 +34,8 @@ impl std::fmt::Debug for PhysLayer {
             PhysLayerImpl::Tls(_) => f.write_str("Tls"),
             #[cfg(test)]
             PhysLayerImpl::Mock(_) => f.write_str("Mock"),
+            #[cfg(kani)]
+            PhysLayerImpl::Verif(_) => f.write_str("Verif"),
         }
     }
 }
@@ -65,19 +69,41 @@ impl PhysLayer {
         }
     }
 
+    #[cfg(kani)]
+    pub(crate) fn new_verif(io: VerifIo) -> Self {
+        Self {
+            layer: PhysLayerImpl::Verif(io),
+        }
+    }
+
+    #[cfg(kani)]
+    pub(crate) fn verif(&mut self) -> &mut VerifIo {
+        match &mut self.layer {
+            PhysLayerImpl::Verif(x) => x,
+            _ => unreachable!(),
+        }
+    }
+
     pub(crate) async fn read(
         &mut self,
         buffer: &mut [u8],
         decode_level: PhysDecodeLevel,
     ) -> Result<usize, std::io::Error> {
         let length = match &mut self.layer {
+            #[cfg(not(kani))]
             PhysLayerImpl::Tcp(x) => x.read(buffer).await?,
+            #[cfg(not(kani))]
             #[cfg(feature = "serial")]
             PhysLayerImpl::Serial(x, _, _) => x.read(buffer).await?,
+            #[cfg(not(kani))]
             #[cfg(feature = "enable-tls")]
             PhysLayerImpl::Tls(x) => x.read(buffer).await?,
             #[cfg(test)]
             PhysLayerImpl::Mock(x) => x.read(buffer).await?,
+            #[cfg(kani)]
+            PhysLayerImpl::Verif(x) => x.read(buffer).await?,
+            #[cfg(kani)]
+            _ => unreachable!(),
         };
 
         if decode_level.enabled() {
@@ -99,7 +125,9 @@ impl PhysLayer {
         }
 
         match &mut self.layer {
+            #[cfg(not(kani))]
             PhysLayerImpl::Tcp(x) => x.write_all(data).await,
+            #[cfg(not(kani))]
             #[cfg(feature = "serial")]
             PhysLayerImpl::Serial(x, inter_char_delay, last_activity) => {
                 // Respect inter-character delay
@@ -110,10 +138,15 @@ impl PhysLayer {
 
                 x.write_all(data).await
             }
+            #[cfg(not(kani))]
             #[cfg(feature = "enable-tls")]
             PhysLayerImpl::Tls(x) => x.write_all(data).await,
             #[cfg(test)]
             PhysLayerImpl::Mock(x) => x.write_all(data).await,
+            #[cfg(kani)]
+            PhysLayerImpl::Verif(x) => x.write_all(data).await,
+            #[cfg(kani)]
+            _ => unreachable!(),
         }
     }
 }
@@ -183,4 +216,87 @@ pub(crate) fn format_bytes(f: &mut std::fmt::Formatter, bytes: &[u8]) -> std::fm
         }
     }
     Ok(())
+}
+
+/// In-memory transport used only by solver-based verification harnesses (`cargo kani` sets `cfg(kani)`).
+///
+/// Reads deliver a scripted byte string in chunks whose sizes are chosen by the solver, writes are
+/// recorded (count, total length, a short prefix and two running checksums). It never returns `Pending`.
+#[cfg(kani)]
+pub(crate) struct VerifIo {
+    pub(crate) input: [u8; VerifIo::IN_CAP],
+    pub(crate) in_len: usize,
+    pub(crate) in_pos: usize,
+    pub(crate) max_chunk: usize,
+    pub(crate) reads: usize,
+    pub(crate) fail_read: bool,
+    pub(crate) out: [u8; VerifIo::OUT_CAP],
+    pub(crate) out_len: usize,
+    pub(crate) out_sum: u32,
+    pub(crate) out_xor: u8,
+    pub(crate) writes: usize,
+    pub(crate) fail_write: bool,
+}
+
+#[cfg(kani)]
+impl VerifIo {
+    pub(crate) const IN_CAP: usize = 32;
+    pub(crate) const OUT_CAP: usize = 24;
+
+    pub(crate) fn new() -> Self {
+        Self {
+            input: [0; Self::IN_CAP],
+            in_len: 0,
+            in_pos: 0,
+            max_chunk: usize::MAX,
+            reads: 0,
+            fail_read: false,
+            out: [0; Self::OUT_CAP],
+            out_len: 0,
+            out_sum: 0,
+            out_xor: 0,
+            writes: 0,
+            fail_write: false,
+        }
+    }
+
+    pub(crate) async fn read(&mut self, buffer: &mut [u8]) -> Result<usize, std::io::Error> {
+        self.reads += 1;
+        if self.fail_read {
+            return Err(std::io::Error::from(std::io::ErrorKind::ConnectionReset));
+        }
+        let remaining = self.in_len - self.in_pos;
+        if remaining == 0 || buffer.is_empty() {
+            return Ok(0);
+        }
+        // the size of every chunk is chosen by the solver
+        let n: usize = kani::any();
+        kani::assume(n >= 1 && n <= remaining && n <= buffer.len() && n <= self.max_chunk);
+        let mut i = 0;
+        while i < n {
+            buffer[i] = self.input[self.in_pos + i];
+            i += 1;
+        }
+        self.in_pos += n;
+        Ok(n)
+    }
+
+    pub(crate) async fn write_all(&mut self, data: &[u8]) -> Result<(), std::io::Error> {
+        if self.fail_write {
+            return Err(std::io::Error::from(std::io::ErrorKind::BrokenPipe));
+        }
+        // keep only a short prefix (byte by byte: a bulk copy of symbolic length is expensive to encode)
+        let mut i = 0;
+        while i < data.len() {
+            if self.out_len + i < Self::OUT_CAP {
+                self.out[self.out_len + i] = data[i];
+            }
+            self.out_sum = self.out_sum.wrapping_add(data[i] as u32);
+            self.out_xor ^= data[i];
+            i += 1;
+        }
+        self.out_len += data.len();
+        self.writes += 1;
+        Ok(())
+    }
 }
